@@ -14,11 +14,31 @@ def replay_auto(p):
             if o == 0: return _D(k, not (k < len(empty) and empty[k]))
             raise (construct.ConstructError("x") if o == 1 else ValueError("x"))
         return dec
+    from han import dlde, common
+    obl = p.get("obligation", ""); orig_r = dlde.decode_p1_readout
+    is_msg = ".decode_message[" in obl; is_readout = is_msg and "P1 readout" in obl
+    p1_idx = [k for k in range(N) if orig[k][0] == "P1"]
+    def dec_r(readout):
+        o = w.get("outcome_readout", 1)
+        if o == 0: return _D(p1_idx[0] if p1_idx else -1, not w.get("empty_readout", False))
+        raise (construct.ConstructError("x") if o == 1 else ValueError("x"))
+    if is_readout:
+        outs = list(outs) + [1] * (N - len(outs))
+        for k in p1_idx: outs[k] = w.get("outcome_readout", 1)
     try:
         autodecoder.AutoDecoder.payload_decoder_functions = [(orig[k][0], mk(k)) for k in range(N)]
+        dlde.decode_p1_readout = dec_r
         d = autodecoder.AutoDecoder(); d._AutoDecoder__previous_success = prev
-        try: res = d.decode_message_payload(b"\x01")
-        except Exception as ex: return {"violated": True, "detail": f"decode_message_payload raised {ex!r}"}
+        try:
+            if is_readout: res = d.decode_message(dlde.DataReadout(b"/ABC5\r\n\r\n1-0:1.8.0(1*kWh)\r\n!\r\n"))
+            elif is_msg and "payload None" in obl:
+                class _M(common.DlmsMessage):
+                    payload = None
+                res = d.decode_message(_M(b"")); outs = [1] * N
+            elif is_msg and "payload empty" in obl: res = d.decode_message(common.DlmsMessage(b"")); outs = [1] * N
+            elif is_msg: res = d.decode_message(common.DlmsMessage(b"\x01\x02\x03\x04\x05"))
+            else: res = d.decode_message_payload(b"\x01")
+        except Exception as ex: return {"violated": True, "detail": f"decode raised {ex!r}"}
         acc = [k for k in range(N) if k < len(outs) and outs[k] == 0]
         got = None if res is None else getattr(res, "k", None)
         newp = d._AutoDecoder__previous_success
@@ -28,4 +48,4 @@ def replay_auto(p):
         name_ok = d.previous_success_decoder == (None if newp is None else orig[newp][0])
         return {"violated": bad or not name_ok, "detail": f"remembered {prev}, outcomes {outs}: decoded by {got} (expected {exp}), remembered afterwards {newp}, name {d.previous_success_decoder}"}
     finally:
-        autodecoder.AutoDecoder.payload_decoder_functions = orig
+        autodecoder.AutoDecoder.payload_decoder_functions = orig; dlde.decode_p1_readout = orig_r
